@@ -155,6 +155,15 @@ func loadEngine(dir string, patterns []string, assumedDir string) (*Engine, erro
 	return e, nil
 }
 
+func (e *Engine) imports(pkg, dep string) bool {
+	p := e.allPkgs[pkg]
+	if p == nil {
+		return false
+	}
+	_, ok := p.Imports[dep]
+	return ok
+}
+
 func (e *Engine) typesPkg(path string) *types.Package {
 	if p, ok := e.allPkgs[path]; ok {
 		return p.Types
